@@ -18,7 +18,9 @@ static struct c09blk *c09_of(char *ba) { QAD *d = *(QAD**)ba; ASSERT(d != SHARED
 uint32_t vp_c09_payload_id(char *ba) { struct c09blk *b = c09_of(ba); return b->kind == K_PACKET ? b->val : 0xffffu; }
 
 /* ---- socket: XmppSocket::sendData (reached through the harness' FakeSock vtable) -------------------------------------------- */
+#ifndef SENT_CAP
 #define SENT_CAP 8
+#endif
 static uint32_t sent_n, sent_kind[SENT_CAP], sent_val[SENT_CAP]; static uint8_t sent_ok[SENT_CAP];
 uint8_t vp_c09_send(char *ba) { struct c09blk *b = c09_of(ba); ASSERT(sent_n < SENT_CAP, "C09 model: socket log capacity");
   uint8_t ok = vp_bool(); sent_kind[sent_n] = b->kind; sent_val[sent_n] = b->val; sent_ok[sent_n] = ok; sent_n++; return ok; }
@@ -50,6 +52,10 @@ uint8_t vp_c09_false(void) { return 0; }
 #define VP_NFIX 0xffffffffu
 #endif
 uint32_t vp_c09_nfix(void) { return VP_NFIX; }
+#ifndef VP_SENDFIX
+#define VP_SENDFIX 0xffffffffu
+#endif
+uint32_t vp_c09_sendfix(void) { return VP_SENDFIX; }
 /* error condition named inside <failed/> (QXmppStanza.cpp is not linked): irrelevant for C09 - any optional<Condition> (value 0..21 in the low word, engaged flag in bit 32) */
 uint64_t _ZN5QXmpp7Private19conditionFromStringERK7QString(char *s) { uint8_t has = vp_bool(); uint32_t c = vp_u32(); ASSUME(c <= 21); return has ? ((uint64_t)1 << 32) | c : 0; }
 /* logging signal of QXmppLoggable (moc): no observable effect */
